@@ -54,6 +54,12 @@ std::vector<Clause> buildClauses() {
     add("makeGlobal/gauss-patterson-depth-tensor", "runtime_error", true, any, [](TasmanianSparseGrid &g, Rng &r) { g.makeGlobalGrid(1, 0, r.pick<int>({9, 11}), type_tensor, rule_gausspatterson); });
     add("updateGlobal/gauss-patterson-depth", "runtime_error", true, [](const TasmanianSparseGrid &g) { return g.isGlobal() && g.getRule() == rule_gausspatterson && !g.isUsingConstruction(); },
         [](TasmanianSparseGrid &g, Rng &r) { g.updateGlobalGrid(r.pick<int>({9, 9, 10}), type_level, std::vector<int>(), std::vector<int>((size_t)g.getNumDimensions(), -1)); }); // explicit "no limits": stored limits could keep the levels inside the table
+    // raw-array overloads with non-null arrays: "throws the same exceptions" as the vector overloads
+    add("makeGlobal/raw-dims", "invalid_argument", true, any, [](TasmanianSparseGrid &g, Rng &r) { int w[6] = {1, 1, 1, 1, 1, 1}, l[3] = {2, 2, 2}; g.makeGlobalGrid(r.pick<int>({-1, -1, 0, -3}), 1, 2, r.chance(0.5) ? type_level : type_curved, rule_clenshawcurtis, w, 0.0, 0.0, nullptr, r.chance(0.5) ? l : nullptr); });
+    add("makeSequence/raw-dims", "invalid_argument", true, any, [](TasmanianSparseGrid &g, Rng &r) { int w[6] = {1, 1, 1, 1, 1, 1}, l[3] = {2, 2, 2}; g.makeSequenceGrid(r.pick<int>({-1, 0, -2}), 1, 2, type_level, rule_leja, r.chance(0.5) ? w : nullptr, l); });
+    add("makeLocalPolynomial/raw-dims", "invalid_argument", true, any, [](TasmanianSparseGrid &g, Rng &r) { int l[3] = {2, 2, 2}; g.makeLocalPolynomialGrid(r.pick<int>({-1, 0, -2}), 1, 2, 1, rule_localp, l); });
+    add("makeWavelet/raw-dims", "invalid_argument", true, any, [](TasmanianSparseGrid &g, Rng &r) { int l[3] = {2, 2, 2}; g.makeWaveletGrid(r.pick<int>({-1, 0, -2}), 1, 2, 1, l); });
+    add("makeFourier/raw-dims", "invalid_argument", true, any, [](TasmanianSparseGrid &g, Rng &r) { int w[6] = {1, 1, 1, 1, 1, 1}, l[3] = {2, 2, 2}; g.makeFourierGrid(r.pick<int>({-1, 0, -2}), 1, 2, type_level, w, r.chance(0.5) ? l : nullptr); });
     add("makeSequence/dims", "invalid_argument", true, any, [](TasmanianSparseGrid &g, Rng &) { g.makeSequenceGrid(0, 1, 2, type_level, rule_leja); });
     add("makeSequence/outputs", "invalid_argument", true, any, [](TasmanianSparseGrid &g, Rng &) { g.makeSequenceGrid(2, -2, 2, type_level, rule_leja); });
     add("makeSequence/depth", "invalid_argument", true, any, [](TasmanianSparseGrid &g, Rng &) { g.makeSequenceGrid(2, 1, -1, type_level, rule_leja); });
